@@ -15,7 +15,8 @@ RULE = ("(universe, search s, rewrite rule, derived searches): R1 split one ',' 
         "(last segment or leaf-key filter); R3 '/**' -> n = 0..max-depth explicit '/*' levels, results restricted to leaf types; R4 append k=v "
         "on a key that every searched type has and that s leaves open ('*'); R5 replace one '*' by a literal (present or absent value). "
         "Each relation is checked between the implementation's own result sets on FindInList, FindInPaths and FindInAll over the same generated "
-        "universe; plus: no duplicates, every result typed and glob-matching a reference form of s. '>' excluded. "
+        "universe; plus: no duplicates, every result typed and glob-matching a reference form of s. '>' excluded. One case in five (R1, R2, R4, R5) writes "
+        "the search and its derived searches as uris ('type:string'). "
         "non-trivial = both sides non-empty on at least one finder; distinct = (universe, s, rule)")
 ASSUMPTIONS = [
     "R4 / R5 only rewrite positions that s leaves open ('*'): overriding a concrete value by a filter is not an algebraic identity",
@@ -134,7 +135,9 @@ def cases(draw):
         d[i] = v
         derived = ["/".join(d)]
         info = {"index": i, "value": v}
-    return {"entities": [[tt, ff] for tt, ff in ents], "rule": rule, "s": s, "derived": derived, "info": info}
+    # the same search written as a uri ('type:string'): forces the one type, everything else as before
+    force = t if rule != "R3" and draw(st.integers(0, 4)) == 0 else None
+    return {"entities": [[tt, ff] for tt, ff in ents], "rule": rule, "s": s, "derived": derived, "info": info, "force": force}
 
 
 def evaluate(case) -> Outcome:
@@ -156,6 +159,13 @@ def evaluate(case) -> Outcome:
     except refsearch.RefSpilException:
         forms = None
         out.label("ref-spil-exception")
+    force = case.get("force")
+    if force:
+        out.label("uri-forced-search")
+        if forms is not None:
+            forms = [fm for fm in forms if force in fm.alt_types]
+        s = force + ":" + s
+        derived = [force + ":" + d for d in derived]
 
     finders = {"list": lambda: FindInList(list(L)), "paths": lambda: FindInPaths(cname), "all": lambda: FindInAll()}
     leaf_names = {v for v in m.leaf_keys.values() if v}
